@@ -171,16 +171,53 @@ def nontrivial(h, impl):
     return len(steps) >= 2 and bool(placed) and (bool(cancelled) or carried)
 
 
-def generate(ctx, n, size):
+def generate(ctx, n, size, mode="natural"):
     hs = [gen_history(ctx.rng, size) for _ in range(n)]
+    for h in hs:
+        h["mode"] = mode
+        if mode == "adversarial":
+            # an environment that breaks the hypothesis of C15_once: decisions are not applied / are retracted,
+            # so placed requests are offered again
+            for st in h["script"]:
+                r = ctx.rng.random()
+                if r < 0.35:
+                    st["apply"] = False
+                elif r < 0.6:
+                    st["run"] = False
+                    st["unschedule"] = [t["tid"] for t in h["tasks"] if ctx.rng.random() < 0.5]
+        elif mode == "tight":
+            # deadlines around now + runtime of some strategy (admission / expiry / availability boundaries)
+            rel = {}
+            for st in h["script"]:
+                for tid in st["release"]:
+                    rel[tid] = st["now"]
+            for t in h["tasks"]:
+                rts = [x["rt"] for m in h["world"] if m["mid"] == t["mid"] for x in m["strategies"]]
+                t["deadline"] = max(0, rel.get(t["tid"], 0) + ctx.rng.choice(rts) + ctx.rng.choice([-1, 0, 0, 1, 2, 5]))
+        elif mode == "ties":
+            # strategies of equal batch size and runtime (ordered by their Resources), equal deadlines
+            for m in h["world"]:
+                if len(m["strategies"]) >= 2 and ctx.rng.random() < 0.7:
+                    a = m["strategies"][0]
+                    b = m["strategies"][1]
+                    b["bs"], b["rt"] = a["bs"], a["rt"]
+                    if b["res"] == a["res"]:
+                        b["res"] = [[a["res"][0][0], 0, a["res"][0][2] + 1]]
+                    for c in m["strategies"][2:]:
+                        if (c["bs"], c["rt"]) == (a["bs"], a["rt"]):
+                            c["rt"] += 5
+            for t in h["tasks"]:
+                t["deadline"] = (t["deadline"] // 20) * 20 + 10
+        elif mode == "load":
+            h["run_load"] = True
     out = core.run_impl("clockwork.py", {"histories": hs})["histories"]
     return hs, out
 
 
 def stats(ctx, hs, impls):
     seen, nt = set(), 0
-    dist = {"invocations": 0, "placed": 0, "cancelled": 0, "batches": 0, "errors": 0, "least_slack": 0, "multi_strategy_models": 0,
-            "getters_changed": 0}
+    dist = {"histories": len(hs), "invocations": 0, "placed": 0, "cancelled": 0, "batches": 0, "errors": 0, "least_slack": 0,
+            "multi_strategy_models": 0, "getters_changed": 0, "load_or_evict_decisions": 0}
     for h, im in zip(hs, impls):
         k = repr(h)
         for r in im["steps"]:
@@ -190,6 +227,7 @@ def stats(ctx, hs, impls):
                 dist["placed"] += sum(d[0] == 4 for d in ds)
                 dist["cancelled"] += sum(d[0] == 3 for d in ds)
                 dist["batches"] += len({d[6] for d in ds if d[0] == 4})
+                dist["load_or_evict_decisions"] += sum(d[0] in (1, 2) for d in ds)
             else:
                 dist["errors"] += 1
             dist["getters_changed"] += not r["unchanged"]
@@ -206,32 +244,174 @@ def correspondence(ctx, hs, impls, stream="S-cw"):
     cases = [(g_history(h, im), expected(im), h) for h, im in zip(hs, impls)]
     mism = ctx.model_stream(stream, HEADER, "history", "cw_observe", cases, shard=60)
     for idx, mv in mism[:3]:
-        ctx.violation("cw%d" % idx, {"stream": stream, "history": hs[idx], "implementation": expected(impls[idx]), "model": mv,
-                                      "observed_inputs": [{"now": r["now"], "offered": r["offered"], "view": r["view"]}
-                                                          for r in impls[idx]["steps"]],
-                                      "what": "ClockworkScheduler.schedule() decisions / final queues differ from the model"})
+        ctx.violation("%s_%d" % (stream.replace("-", ""), idx),
+                      {"stream": stream, "history": hs[idx], "implementation": expected(impls[idx]), "model": mv,
+                       "observed_inputs": [{"now": r["now"], "offered": r["offered"], "view": r["view"]} for r in impls[idx]["steps"]],
+                       "what": "ClockworkScheduler.schedule() decisions / final queues differ from the model"})
     return mism
+
+
+# ------------------------------------------------------------------ monitors on the implementation's observations
+def batches_of(ds):
+    """placements of one invocation grouped into batches, in order of first appearance"""
+    out, ix = [], {}
+    for d in ds:
+        if d[0] != 4:
+            continue
+        key = d[6]
+        if key not in ix:
+            ix[key] = len(out)
+            out.append({"pool": d[3], "worker": d[4], "sid": d[5] if isinstance(d[5], int) else -1, "time": d[2], "tasks": []})
+        out[ix[key]]["tasks"].append(d[1])
+    return out
+
+
+def g_oinv(h, rec):
+    tasks = {t["tid"]: t for t in h["tasks"]}
+    ds = rec["result"][1]
+    view = rec["load_view"] if rec.get("load_view") is not None else rec["view"]
+    bs = ["(mkOB %s %s %s %s %s)" % (gz(b["pool"]), gz(b["worker"]), gz(b["sid"]), gz(b["time"]), glist([g_task(tasks[i]) for i in b["tasks"]]))
+          for b in batches_of(ds)]
+    return "(mkOI %s %s %s %s %s)" % (gz(rec["now"]), glist([g_task(tasks[i]) for i in rec["offered"]]), g_pools(view),
+                                     glist([gz(d[1]) for d in ds if d[0] == 3]), glist(bs))
+
+
+def g_obs(h, impl):
+    return "(%s, %s)" % (g_world(h["world"]), glist([g_oinv(h, r) for r in impl["steps"] if r["result"][0] == 0]))
+
+
+def py_monitor(h, impl, once=True):
+    """Reference monitor in Python (names the clause that fails; also the fallback when the Coq model cannot be evaluated)."""
+    tasks = {t["tid"]: t for t in h["tasks"]}
+    world = {m["mid"]: m["strategies"] for m in h["world"]}
+    bad, placed_all = [], []
+    for k, r in enumerate(impl["steps"]):
+        if r["result"][0] != 0:
+            continue
+        now, ds = r["now"], r["result"][1]
+
+        def hopeless(i):
+            t = tasks[i]
+            return t["deadline"] < now + min(s["rt"] for s in world[t["mid"]])
+        cancelled = [d[1] for d in ds if d[0] == 3]
+        if cancelled != [i for i in r["offered"] if hopeless(i)]:
+            bad.append("inv%d: cancellations are not exactly the hopeless offered requests" % k)
+        placed = []
+        view = r["load_view"] if r.get("load_view") is not None else r["view"]
+        workers = {(p["pid"], w["wid"]): w for p in view for w in p["workers"]}
+        for b in batches_of(ds):
+            ts = [tasks[i] for i in b["tasks"]]
+            placed += b["tasks"]
+            mids = {t["mid"] for t in ts}
+            if len(mids) != 1:
+                bad.append("inv%d: batch mixes models" % k)
+                continue
+            mid = mids.pop()
+            st = [s for s in world[mid] if s["sid"] == b["sid"]]
+            if not st:
+                bad.append("inv%d: batch strategy is not a strategy of the model" % k)
+                continue
+            st = st[0]
+            if len(ts) != st["bs"]:
+                bad.append("inv%d: batch of %d requests under a strategy of batch size %d" % (k, len(ts), st["bs"]))
+            w = workers.get((b["pool"], b["worker"]))
+            if w is None or [mid, 0] not in w["loaded"]:
+                bad.append("inv%d: batch on a worker that does not exist or has not loaded the model" % k)
+            if any(now + st["rt"] > t["deadline"] for t in ts):
+                bad.append("inv%d: now + runtime is after the deadline of a member of the batch" % k)
+            if b["time"] < now:
+                bad.append("inv%d: placement before now" % k)
+        if len(set(cancelled + placed)) != len(cancelled + placed):
+            bad.append("inv%d: two decisions for one request" % k)
+        if any(i not in r["offered"] for i in cancelled + placed):
+            bad.append("inv%d: decision for a request that was not offered" % k)
+        if any(hopeless(i) for i in placed):
+            bad.append("inv%d: a hopeless request was placed" % k)
+        placed_all += placed
+    if once and len(set(placed_all)) != len(placed_all):
+        bad.append("a request was placed twice over the run")
+    return bad
+
+
+def monitors(ctx, hs, impls, stream, once=True, tag="mon"):
+    """mon_history (or its per-invocation part) on what the implementation returned; returns #failing histories."""
+    fn = "(fun p => mon_history (fst p) (snd p))" if once else "(fun p => forallb (mon_invocation (fst p)) (snd p))"
+    cases = [g_obs(h, im) for h, im in zip(hs, impls)]
+    try:
+        bad = ctx.monitor_stream(stream, HEADER, "world * list oinv", fn, cases, shard=60)
+    except core.ModelEvalError as e:
+        ctx.broken.append({"kind": "monitor", "name": stream, "detail": str(e)[-600:]})
+        bad = [i for i, (h, im) in enumerate(zip(hs, impls)) if py_monitor(h, im, once)]
+    for b in bad[:3]:
+        ctx.violation("%s_%s%d" % (stream.replace("-", ""), tag, b),
+                      {"stream": stream + " monitor", "history": hs[b],
+                       "observed": [{"now": r["now"], "offered": r["offered"], "view": r["view"], "result": r["result"]}
+                                    for r in impls[b]["steps"]],
+                       "failing_clauses": py_monitor(hs[b], impls[b], once),
+                       "what": "the decisions returned by the real ClockworkScheduler violate the monitored property"})
+    return bad
+
+
+def getters_monitor(ctx, hs, impls, stream):
+    """cluster and task getters before/after every schedule() call, compared inside Coq"""
+    cases, where = [], []
+    for hi, im in enumerate(impls):
+        for k, r in enumerate(im["steps"]):
+            cases.append("(%s, %s)" % (core.gval(r["getters"][0]), core.gval(r["getters"][1])))
+            where.append((hi, k))
+    try:
+        bad = ctx.monitor_stream(stream, "", "val * val", "(fun p => val_eqb (fst p) (snd p))", cases, shard=150)
+    except core.ModelEvalError as e:
+        ctx.broken.append({"kind": "monitor", "name": stream, "detail": str(e)[-600:]})
+        bad = [i for i, (hi, k) in enumerate(where) if not impls[hi]["steps"][k]["unchanged"]]
+    for b in bad[:3]:
+        hi, k = where[b]
+        g0, g1 = impls[hi]["steps"][k]["getters"]
+        ctx.violation("getters%d" % b, {"stream": stream, "history": hs[hi], "invocation": k,
+                                         "changed_getters": [[x, y] for x, y in zip(g0, g1) if x != y][:5],
+                                         "what": "schedule() changed the live cluster or a task (getter values before/after differ)"})
+    return bad
+
+
+def strip(hs, impls):
+    """drop the bulky getter snapshots once they were checked"""
+    for im in impls:
+        for r in im["steps"]:
+            r.pop("getters", None)
+
+
+RULE = ("S-cw: histories of 1..%d schedule() invocations of the real ClockworkScheduler on real Workload/WorkerPools objects: "
+        "1-3 models with 1-3 strategies (batch sizes 1-4, several runtimes, any/specific resource ids), 1-3 workers in 1-2 pools with "
+        "partial loading states, requests arriving at every invocation with deadlines past / exactly tight / loose, placed tasks are "
+        "applied to the live cluster and finish later, both goals; variants: tight (deadline = now + a strategy runtime +-1), ties "
+        "(strategies of equal batch size and runtime, equal deadlines), adversarial (decisions not applied / retracted, so placed "
+        "requests come back), load (scheduler_run_load on, LOAD/EVICT answer recorded); the model receives what the implementation "
+        "was offered and saw; distinct = distinct history; non-trivial = >= 2 invocations, a batch placed, and a cancellation or a "
+        "request carried over")
 
 
 def run(ctx):
     ctx.fingerprint(FILES)
     ctx.translate(["Clockwork"])
-    built = ctx.build(ctx.pid, deps=["Model/Clockwork.v"])
+    built = ctx.build("C15", deps=["Model/Clockwork.v"])
     quick = ctx.tier == "quick"
-    n = 360 if quick else 6000
-    hs, impls = generate(ctx, n, 4 if quick else 6)
-    ctx.rules.append("S-cw: histories of 1..%d schedule() invocations of the real ClockworkScheduler on real Workload/WorkerPools "
-                     "objects: 1-3 models with 1-3 strategies (batch sizes 1-4, several runtimes, any/specific resource ids), "
-                     "1-3 workers in 1-2 pools with partial loading states, requests arriving at every invocation with deadlines "
-                     "past / exactly tight / loose, placed tasks are applied to the live cluster and finish later, both goals; "
-                     "the model receives what the implementation was offered and saw; distinct = distinct history; non-trivial = "
-                     ">= 2 invocations, a batch placed, and a cancellation or a request carried over" % (4 if quick else 6))
-    nt, dist = stats(ctx, hs, impls)
-    ctx.cov["distinct_nontrivial"] += nt
-    ctx.cov["input_distribution"] = dist
-    ctx.sample({"stream": "S-cw", "history": hs[0], "implementation": expected(impls[0])})
-    try:
-        correspondence(ctx, hs, impls)
-    except core.ModelEvalError as e:
-        ctx.broken.append({"kind": "correspondence", "name": "S-cw", "detail": str(e)[-600:]})
+    size = 4 if quick else 6
+    plan = [("natural", 300 if quick else 4000), ("tight", 120 if quick else 1500), ("ties", 90 if quick else 1000),
+            ("adversarial", 90 if quick else 1000), ("load", 60 if quick else 600)]
+    ctx.rules.append(RULE % size)
+    dist_all = {}
+    for mode, n in plan:
+        hs, impls = generate(ctx, n, size, mode)
+        nt, dist = stats(ctx, hs, impls)
+        ctx.cov["distinct_nontrivial"] += nt
+        dist_all[mode] = dist
+        if mode == "natural":
+            ctx.sample({"stream": "S-cw", "history": hs[0], "implementation": expected(impls[0])})
+        stream = "S-cw" if mode == "natural" else "S-cw-" + mode
+        try:
+            correspondence(ctx, hs, impls, stream)
+        except core.ModelEvalError as e:
+            ctx.broken.append({"kind": "correspondence", "name": stream, "detail": str(e)[-600:]})
+        monitors(ctx, hs, impls, stream, once=(mode != "adversarial"))
+    ctx.cov["input_distribution"] = dist_all
     return built
